@@ -48,21 +48,26 @@ CORR = (1, 2, 4, 5, 6, 21, 22, 23, 24)
 ORACLE = (11, 12, 13, 14, 15, 31, 32, 33, 34, 35, 41, 42, 43, 44, 45, 46, 47, 48)
 GUARD_NAMES = {201: 'g_plain_layout', 202: 'g_xn_uniform', 203: 'g_xn_nofix', 205: 'g_repr',
                206: 'g_count', 207: 'g_rm_single', 208: 'g_removed_unnamed', 209: 'g_names', 210: 'g_bounds_canonical',
-               221: 'g_plain_item', 222: 'g_oxn', 223: 'g_sd_exact', 224: 'g_orepr', 226: 'g_ocount', 227: 'g_block_scale_exact', 241: 'c_default_names_in_place', 242: 'c_block_fix_uniform',
-               244: 'c_no_item_leaves_a_multi_item_record', 245: 'c_no_scaled_record', 246: 'c_no_xn_repeat',
+               221: 'g_plain_item', 222: 'c_oxn_uniform', 223: 'g_sd_exact', 224: 'g_orepr', 226: 'g_ocount', 227: 'g_block_scale_exact', 241: 'c_default_names_in_place', 242: 'c_block_fix_uniform',
+               244: 'c_no_item_leaves_a_multi_item_record', 245: 'c_no_scaled_record', 246: 'c_no_item_leaves_an_xn_record',
                299: 'plan_error'}
-# guard conjunct -> finding id (conjuncts without an entry describe unrepresentable inputs, not defects)
+# guard conjunct / class predicate -> finding id (conjuncts without an entry describe unrepresentable inputs,
+# not defects).  After the batch-2 fixes (b54b188, f6a49ae, 5bd60d8) the ids C04-OMEGA-XN-SPLIT,
+# C04-OMEGA-BLOCK-FIX-LOST and C04-OMEGA-DIAG-ITEM-REMOVED are fixed and no tag maps to them any more: what
+# still fails in their neighbourhood is listed under separate open ids.
+#   222 is no guard conjunct any more (omega_diag_update_readback holds without it): it only says that a
+#   (v)xn group was split, which still moves the name comment and re-spells the later copies.
 FINDING_OF = {202: 'C04-THETA-XN-EDIT', 203: 'C04-THETA-XN-FIX',
               201: 'C04-THETA-EXOTIC-LAYOUT', 207: 'C04-THETA-REMOVE-XN', 208: 'C04-THETA-REMOVE-COMMENT',
-              209: 'C04-THETA-NAMES-SHIFT', 210: 'C04-THETA-BOUND-RESPELL', 222: 'C04-OMEGA-XN-SPLIT', 223: 'C04-OMEGA-SCALE-INEXACT', 227: 'C04-OMEGA-SCALE-INEXACT',
-              241: 'C04-OMEGA-NAMES-SHIFT', 242: 'C04-OMEGA-BLOCK-FIX-LOST', 244: 'C04-OMEGA-DIAG-ITEM-REMOVED',
-              245: 'C04-OMEGA-SCALE-INEXACT', 246: 'C04-OMEGA-XN-SPLIT'}
+              209: 'C04-THETA-NAMES-SHIFT', 210: 'C04-THETA-BOUND-RESPELL', 222: 'C04-OMEGA-XN-SPLIT-NAMES', 223: 'C04-OMEGA-SCALE-INEXACT', 227: 'C04-OMEGA-SCALE-INEXACT',
+              241: 'C04-OMEGA-NAMES-SHIFT', 242: 'C04-OMEGA-BLOCK-PARTIAL-FIX', 244: 'C04-OMEGA-DIAG-ITEM-ORDER',
+              245: 'C04-OMEGA-SCALE-INEXACT', 246: 'C04-OMEGA-XN-REMOVE'}
 # which false guard conjuncts can explain which oracle tag
 EXPLAINS = {11: (201, 202, 203, 205, 207, 208), 12: (201, 202, 203, 205, 207), 14: (201, 202, 207, 206),
             15: (208, 209, 207, 202), 13: (210, 201, 202, 207),
-            31: (221, 222, 224), 32: (221, 222, 223, 224, 227), 33: (221, 222, 223, 227), 34: (221, 226), 35: (221, 222),
-            41: (244, 246), 42: (244, 246), 43: (244, 246), 44: (245, 244, 246), 45: (244, 246), 48: (242, 244, 246), 46: (241, 244, 246),
-            47: (244, 246)}
+            31: (221, 224), 32: (221, 223, 224, 227), 33: (221, 222, 223, 227), 34: (221, 226), 35: (221, 222),
+            41: (246,), 42: (244, 246), 43: (244, 246), 44: (245, 244, 246), 45: (244, 246), 48: (242, 244, 246), 46: (241, 244, 246),
+            47: (246,)}
 
 
 # ------------------------------------------------------------------ worker side
@@ -294,7 +299,7 @@ def classify(ctx, spec, step_no, tags, info):
             why = [g for g in why if g not in (223, 227, 245)]      # more than float noise: not explained by the scale
         fids = [FINDING_OF[g] for g in why if g in FINDING_OF]
         unrep = [g for g in why if g not in FINDING_OF]
-        open_f = [f for f in fids if ctx.open_finding(f)]
+        open_f = [f for f in fids if is_open(ctx, f)]
         if not corr and open_f:
             for f in open_f[:1]:
                 ctx.coverage.setdefault('known_hits', {}).setdefault(f, 0)
@@ -339,8 +344,22 @@ def evaluate(ctx, results, label):
     return out, stats
 
 
-def finding_probes(ctx):
+def effective_findings(ctx):
+    """known_findings.json followed by the staging files: the LAST entry of an id is the valid one (the
+    maintainer's merge replaces entries by id)."""
+    eff = {}
     for f in ctx.findings:
+        eff[f['id']] = f
+    return eff
+
+
+def is_open(ctx, fid):
+    f = effective_findings(ctx).get(fid)
+    return f is not None and f.get('status') == 'open' and ctx.open_finding(fid) is not None
+
+
+def finding_probes(ctx):
+    for f in effective_findings(ctx).values():
         if f.get('status') != 'open':
             continue
         res = [run_spec_task(f['witness'])]
